@@ -435,6 +435,63 @@ def job_dfa2regexp(job, n, k, shape, length):
     return job.solve()
 
 
+# ------------------------------------------------------------------------------------------ CYK table
+CYK_RULES = [('S', 'AB'), ('A', 'a'), ('B', 'b'), ('S', 'BA'), ('A', 'b'), ('B', 'a'), ('S', 'a'), ('A', 'AS')]
+CYK_FIXED = 3
+
+
+def job_cyk_checker(job, word):
+    """check_cyk_matrix: CNF grammar with five symbolic rules; the submitted table has an arbitrary subset of {S, A, B} in
+    every cell (triangular layout as the notebook prints it)"""
+    import itertools as it
+    import gambatools.notebook_cfg as NC
+    from .cfg_sym import GrammarSem
+    job.functions('notebook_cfg', ['check_cyk_matrix'])
+    job.functions('cfg_algorithms', ['cfg_cyk_matrix', 'parse_simple_cfg'])
+    d = E.dag
+    c.set_exhaustive(16)
+    variables = ['S', 'A', 'B']
+    bits = [TRUE] * CYK_FIXED + [E.fresh('rule_%s_%s' % (X, r)) for X, r in CYK_RULES[CYK_FIXED:]]
+    entries = [(b, X, tuple(r)) for b, (X, r) in zip(bits, CYK_RULES)]
+    cfg_text = L.GStr([(b, '%s -> %s\n' % (X, r)) for b, (X, r) in zip(bits, CYK_RULES)])
+    n = len(word)
+    cell = {}
+    for i in range(n):
+        for j in range(i, n):
+            cell[(i, j)] = {V_: E.fresh('cell_%d_%d_%s' % (i, j, V_)) for V_ in variables}
+
+    def entry_text(i, j):
+        alts = []
+        for mask in it.product([0, 1], repeat=len(variables)):
+            g = d.all_(cell[(i, j)][V_] if m else cell[(i, j)][V_] ^ 1 for m, V_ in zip(mask, variables))
+            alts.append((g, '{' + ','.join(V_ for m, V_ in zip(mask, variables) if m) + '}'))
+        return alts
+    lines = []
+    for row in range(n):           # row 0: the single cell (0, n-1); last row: the diagonal
+        span = n - 1 - row
+        cells = [(j, j + span) for j in range(n - span)]
+        alts = [(TRUE, '')]
+        for (i, j) in cells:
+            alts = [(d.and_(g, h), (t + ' ' + e).strip()) for g, t in alts for h, e in entry_text(i, j)]
+        lines.append((TRUE, E.mk([(g, t + '\n') for g, t in alts if g != FALSE])))
+    answer = L.GStr(lines)
+    dec = lambda mv: {'rules': [list(r) for b, r in zip(bits, CYK_RULES) if mv(b)], 'word': word,
+                      'table': {'%d,%d' % k: [V_ for V_ in variables if mv(cell[k][V_])] for k in cell}}
+    job.inputs['exercise'] = None
+    job.decoders['exercise'] = dec
+    rp = ('cyk_checker', {'x': dec})
+    ev = run_checker(NC.check_cyk_matrix, cfg_text, word, answer)
+    job.lifted()
+    ok = said_ok(ev)
+    sem = GrammarSem(entries, variables, word)
+    wrong = d.any_(d.iff(cell[(i, j)][V_], sem.derives(V_, i, j + 1)) ^ 1 for (i, j) in cell for V_ in variables)
+    job.oblige('OK only if every cell of the submitted table equals the set of variables that derive the subword', d.and_(ok, wrong), replay=rp)
+    job.must_reach('OK is printed for some table', ok)
+    job.must_reach('an error is printed for some table', said(ev, lambda t: t.startswith('Error')))
+    job.failures_as_obligations(replay=rp)
+    return job.solve()
+
+
 # ------------------------------------------------------------------------------------------ derivations
 DERIV_CANDS = [('S', 'a'), ('S', 'SS'), ('S', 'b'), ('A', 'a'), ('B', 'b'), ('S', 'AB'), ('S', 'aS')]
 DERIV_FORMS = [['SS', 'AB', 'aS'], ['aS', 'Sb', 'Ab', 'aB', 'ab'], ['ab', 'aS', 'ba']]
@@ -517,6 +574,8 @@ def jobs(tier):
     for s in ([ 'I', 0], ['C', 0, ['I', 0]], ['S', 0, ['C', 0, 0]], ['I', ['S', 0, 0]]):
         from .C06 import _shape_name
         add('dfa2regexp_%s' % _shape_name(s), job_dfa2regexp, n=2, k=2 if len(str(s)) < 18 else 1, shape=s, length=3, timeout=tmo)
+    add('cyk_checker_ab', job_cyk_checker, word='ab', timeout=tmo)
+    add('cyk_checker_ba', job_cyk_checker, word='ba', timeout=tmo)
     for dtype in ('leftmost', 'rightmost', 'any'):
         add('derivation_%s' % dtype, job_derivation, dtype=dtype, timeout=tmo)
     if not q:
@@ -528,7 +587,7 @@ def jobs(tier):
         add('complement_n3_k2', job_complement, n=3, k=2, timeout=tmo)
         add('from_words_n3_k2', job_from_words, n=3, k=2, word_list='a ab abb', length=3, max_states=3, timeout=tmo)
         add('accepts_rejects_n4_k1', job_accepts_rejects, n=4, k=1, accepted='aaa', rejected='_ a aa aaaa', timeout=tmo)
-        add('compare_languages_L3', job_compare, maxlen=3, timeout=tmo)
+        add('compare_languages_L5_a', job_compare, maxlen=5, syms='a', timeout=tmo)
     return J
 
 
@@ -694,6 +753,22 @@ def _replay_derivation(rp):
     return 'OK' in lines and not valid, {'printed': lines, 'valid derivation': valid}
 
 
-REPLAY = {'derivation': _replay_derivation, 'compare': _replay_compare, 'complement': _replay_complement, 'product': _replay_product, 'reverse': _replay_reverse,
+def _replay_cyk_checker(rp):
+    import gambatools.notebook_cfg as NC
+    x = rp['x']
+    cfg = ''.join('%s -> %s\n' % (X, r) for X, r in x['rules'])
+    w = x['word']
+    n = len(w)
+    rows = []
+    for row in range(n):
+        span = n - 1 - row
+        rows.append(' '.join('{' + ','.join(x['table']['%d,%d' % (j, j + span)]) + '}' for j in range(n - span)))
+    lines = _capture(NC.check_cyk_matrix, cfg, w, '\n'.join(rows) + '\n')
+    tab = nat.ref_cfg_table({'V': ['S', 'A', 'B'], 'Sigma': ['a', 'b'], 'S': 'S', 'R': [[X, list(r)] for X, r in x['rules']]}, w)
+    right = all(set(x['table']['%d,%d' % (i, j)]) == set(V_ for V_ in ('S', 'A', 'B') if (V_, i, j + 1) in tab) for i in range(n) for j in range(i, n))
+    return 'OK' in lines and not right, {'printed': lines, 'table correct': right}
+
+
+REPLAY = {'cyk_checker': _replay_cyk_checker, 'derivation': _replay_derivation, 'compare': _replay_compare, 'complement': _replay_complement, 'product': _replay_product, 'reverse': _replay_reverse,
           'minimal': _replay_minimal, 'nfa2dfa': _replay_nfa2dfa, 'from_words': _replay_from_words,
           'accepts_rejects': _replay_accepts_rejects, 'dfa2regexp': _replay_dfa2regexp}
